@@ -45,3 +45,12 @@ spec("C16", "bodies verbatim", [V.rule_visit5], "tmp")
 from sa.rules import align as A
 
 spec("C06", "emitted code valid", [A.rule_align_emit, A.rule_align_parse], "tmp")
+
+from sa.rules import mod as M
+
+spec("C13", "non-interference", [M.rule_mod1_2, M.rule_mod3], "tmp")
+spec("C11", "sync preserves rest", [M.rule_modf, M.rule_modf2], "tmp")
+
+from sa.rules import typeflow as T
+
+spec("C18", "wrapping transparent", [T.rule_typeflow, T.rule_wrap_last], "tmp")
